@@ -209,3 +209,85 @@ def case(ctx, case):
             ctx.violation(dict(sig, q="forced_start_nonzero"), "forced first moves contribute to the beams' log-probs", None)
             return
     ctx.sample(dict(case=case, beams_row0=beams_a[0].tolist()))
+
+
+def sched_case(ctx, case):
+    """Beam search of the L2D policy on FJSP / JSSP (variable-length scheduling episodes, random forced first moves).
+    Monitors: (0) the forced first moves, observed where the environment hands them out, are eligible in THEIR row's instance
+    (row r of the expanded batch is instance r mod B); (1) every returned beam is an executable, complete schedule of its own
+    instance by the reference simulator; (2) its reward is minus the makespan of that schedule; (3) with select_best the
+    returned row is the best of the instance's own beams (tapped inside the call)."""
+    from vlib import envzoo
+    from vlib.oracles import scheduling as S
+
+    cfg, B, W, seed = case["cfg"], case["B"], case["W"], case["s"]
+    name = cfg["env"]
+    env = envzoo.make_other(cfg)
+    torch.manual_seed(seed)
+    td_in = env.generator(batch_size=[B])
+    td0 = env.reset(td_in.clone())
+    insts = [S.JobShop.extract(td0.clone(), b) for b in range(B)]
+    pol = policies.make("l2d", env, seed=case.get("wseed", 0))
+    dec = S.fjsp_decode(cfg["mas"]) if name == "fjsp" else S.jssp_decode()
+    sig = dict(env=name, select_best=case["select_best"], policy="l2d", mask_no_ops=cfg["mask_no_ops"])
+    starts = []
+    orig_sel = env.select_start_nodes
+
+    def sel_tap(td, num_starts):
+        mask = td["action_mask"].clone()
+        a = orig_sel(td, num_starts)
+        starts.append((mask, a.clone(), num_starts))
+        return a
+
+    env.select_start_nodes = sel_tap
+    try:
+        with torch.no_grad(), PolicyTap(pol, keep_logits=False, on_strategy=hook_beam) as rec:
+            torch.manual_seed(seed + 1)
+            out = pol(td0.clone(), env, phase="test", decode_type="beam_search", beam_width=W, select_best=case["select_best"], return_actions=True)
+    except Exception as e:
+        ctx.evaluation()
+        ctx.violation(dict(sig, q="beam_raises", exc=type(e).__name__), f"beam search (width {W}, B={B}) raised {type(e).__name__}: {str(e)[:200]}", dict(B=B, W=W))
+        return
+    finally:
+        env.select_start_nodes = orig_sel
+    ctx.count("c13_beam_calls")
+    ctx.count("c13_sched_beam_calls")
+    for mask, a, ns in starts:
+        Bm = mask.shape[0]
+        rows = a.reshape(-1)
+        for r in range(rows.numel()):
+            ctx.evaluation()
+            ctx.count("c13_forced_starts_checked")
+            if not bool(mask[r % Bm, int(rows[r])]):
+                ctx.violation(dict(sig, q="forced_start_infeasible"), f"row {r} (instance {r % Bm}) is forced to start with action {int(rows[r])}, which its instance's mask forbids", dict(B=B, W=W, row=r))
+                return
+    acts_all, rew = out["actions"], out["reward"].reshape(-1)
+    R = acts_all.shape[0]
+    per_inst = {}
+    for r in range(R):
+        b = r % B
+        acts = [int(a) for a in acts_all[r].tolist()]
+        s2, f2, m2, done2, err = S.JobShop.simulate(insts[b], acts, dec, not cfg["mask_no_ops"])
+        ctx.evaluation()
+        ctx.count("c13_beams_checked")
+        if err is not None or not done2:
+            ctx.violation(dict(sig, q="beam_infeasible"), f"returned beam (row {r}, instance {b}) is not an executable complete schedule of its instance: {err or 'schedule not finished'}", dict(row=r, inst=insts[b], actions=acts))
+            return
+        mk = max(f for f, p in zip(f2, insts[b]["pad"]) if not p and f is not None)
+        if abs(float(rew[r]) + mk) > 1e-4 * max(1.0, abs(mk)):
+            ctx.violation(dict(sig, q="beam_reward"), f"row {r}: reported reward {float(rew[r])}, the schedule of the returned actions has makespan {mk}", dict(row=r, inst=insts[b], actions=acts))
+            return
+        per_inst.setdefault(b, []).append(mk)
+        ctx.nontrivial_case(dict(i=insts[b], a=acts, W=W))
+    if case["select_best"] and rec.best_beam is not None:
+        ctx.count("c13_best_taps")
+        bb = rec.best_beam
+        all_r = bb["all_reward"].reshape(W, B)
+        for b in range(B):
+            ctx.evaluation()
+            ctx.count("c13_best_rows")
+            best = float(all_r[:, b].max())
+            if abs(float(rew[b]) - best) > 1e-4 * max(1.0, abs(best)):
+                ctx.violation(dict(sig, q="best_reward"), f"instance {b}: returned reward {float(rew[b])} != max over its {W} beams {best}", dict(B=B, W=W))
+                return
+    ctx.sample(dict(case={k: v for k, v in case.items()}, makespans={str(k): v[:4] for k, v in list(per_inst.items())[:3]}))
